@@ -3,10 +3,18 @@
 // The REAL l1.Client (Run, CatchUpL1Head) is driven by a harness implementation of l1.L1StateProvider that
 // is backed by a model Ethereum chain owned by the generator, against a real blockchain.Blockchain on an
 // in-memory database. A rapid-drawn script decides what the L1 node does next (mine a block carrying 0-3
-// LogStateUpdate events, hand the next queued log to the subscription, advance the finalised height, reorg the
-// non-finalised suffix, break the subscription, make resubscription / FinalisedHeight / the catch-up queries
-// fail, restart the client). Synchronisation with the concurrent client is by COUNTS (channel drained, then two
-// further FinalisedHeight answers); wall-clock guards only ever make a case inconclusive.
+// LogStateUpdate events or a run of 5..1000 blocks without any, hand the next queued log to the subscription,
+// advance the finalised height (by one, to an event, to a fixed lag below the tip, anywhere), reorg the
+// non-finalised suffix (a few blocks or down to any block above the finalised one), break the subscription, make
+// resubscription / FinalisedHeight / the catch-up queries fail, restart the client). Every provider failure has a
+// KIND, the ones the real adapter produces: transport error, the eth.ErrNotFound sentinel ("no such block": the
+// node has no finalised block to report, typical after a restart of the L1 node), expired context. The
+// finalised-height query can fail for a whole stretch of the script (outage: every poll, for dozens of polls) or
+// flakily (cyclic pattern), while logs at any depth below the tip are delivered, finality moves on and reorgs happen.
+// Height geometry: the tip may be hundreds of blocks above the buffered events and the finalised height.
+// Synchronisation with the concurrent client is by COUNTS (channel drained, then two further FinalisedHeight
+// answers; during an outage: k further polls, then only the per-value invariants are checked, because nothing is
+// reported as finalised meanwhile); wall-clock guards only ever make a case inconclusive.
 //
 // The same script runs in two modes. In the interface mode the model node implements l1.L1StateProvider itself.
 // In the geth mode (geth_test.go) the model node is served as an Ethereum JSON-RPC endpoint over a websocket
@@ -45,6 +53,7 @@ import (
 	"github.com/NethermindEth/juno/db/memory"
 	_ "github.com/NethermindEth/juno/encoder/registry"
 	"github.com/NethermindEth/juno/l1"
+	"github.com/NethermindEth/juno/l1/eth"
 	"github.com/NethermindEth/juno/utils/log"
 	"pgregory.net/rapid"
 
@@ -99,9 +108,14 @@ type item struct {
 type plan struct {
 	chunk        uint64
 	chainIDFailN int
-	latestFail   bool
+	chainIDKind  int
+	latestFail   bool // the first LatestHeight call (the one of the catch-up scan) fails
+	latestKind   int
+	latestLater  []int // answer kinds of any further LatestHeight call (cyclic)
 	finFailN     int
+	finKind      int
 	filterFailAt int // index of the FilterStateUpdate call that fails (-1: none)
+	filterKind   int
 	watchFailN   int
 	midAt        int // index of the FilterStateUpdate call before which the chain changes (-1: none)
 	midReorg     bool
@@ -112,6 +126,8 @@ type plan struct {
 
 func (p plan) String() string {
 	s := fmt.Sprintf("chunk=%d chainIDFail=%d latestFail=%v finFail=%d filterFailAt=%d watchFail=%d", p.chunk, p.chainIDFailN, p.latestFail, p.finFailN, p.filterFailAt, p.watchFailN)
+	s += fmt.Sprintf(" kinds(chainID=%s latest=%s fin=%s filter=%s laterLatest=%s)", kindName[p.chainIDKind], kindName[p.latestKind],
+		kindName[p.finKind], kindName[p.filterKind], kindsString(p.latestLater))
 	if p.midAt >= 0 {
 		if p.midReorg {
 			s += fmt.Sprintf(" midscan@%d=reorg(depth<=%d,new=%v,order=%d)", p.midAt, p.midDepth, p.midSpec, p.midOrder)
@@ -181,6 +197,16 @@ type harness struct {
 	injected    int
 	latestGiven uint64 // LatestHeight answer of this instance
 	prevFrom    uint64 // lower bound of the previous FilterStateUpdate request
+	// what the node answers to the finalised-height query (a property of the NODE: survives client restarts)
+	finPattern    []int // cyclic per-call answer kinds (nil: every call is answered); without kOK it is an outage
+	finPos        int
+	outagePolls   int  // FinalisedHeight calls answered with a failure since the pattern was installed
+	finFailKind   int  // kind of the transient failures counted by finFailN
+	finCalls      int  // FinalisedHeight calls of this instance (any answer)
+	latestCalls   int  // LatestHeight calls of this instance (any answer)
+	scanDisturbed bool // the first LatestHeight / FinalisedHeight call of this instance (those of the scan) failed
+	stallSent     int  // logs handed to the channel during outages since the channel was last known drained
+	pendingResub  bool // the subscription was broken during an outage: the client has not noticed yet
 	// counters
 	finOK, watchOK, watchFail int
 	reported                  bool
@@ -191,9 +217,10 @@ type harness struct {
 	flags map[string]bool
 	note  chan struct{}
 
-	cur     *running
-	obsStop chan struct{}
-	obsWG   sync.WaitGroup
+	cur      *running
+	deferred []func() // waits for the client that can only complete once the outage is over (test goroutine only)
+	obsStop  chan struct{}
+	obsWG    sync.WaitGroup
 
 	// geth mode (geth_test.go): the model node is reached through the real GethL1StateProvider
 	viaGeth    bool
@@ -268,6 +295,45 @@ func (h *harness) mineLocked(n int) []*event {
 		h.flagLocked("same-block-multi")
 	}
 	return b.evs
+}
+
+// mineGapLocked mines k Ethereum blocks without any LogStateUpdate (most Ethereum blocks carry none).
+func (h *harness) mineGapLocked(k int) {
+	for i := 0; i < k; i++ {
+		h.blocks = append(h.blocks, &l1block{})
+		h.mined++
+	}
+	if k >= 63 {
+		h.flagLocked("gap>=63-blocks")
+	}
+}
+
+// deepUnfinalisedLocked: an event the running instance was handed, still canonical, above every finalised height
+// reported so far, lies at least `depth` blocks below the chain tip.
+func (h *harness) deepUnfinalisedLocked(depth uint64) bool {
+	tip := uint64(len(h.blocks) - 1)
+	if tip < depth {
+		return false
+	}
+	for _, e := range h.all {
+		if e.gen == h.gen && e.ever && !e.orphaned && e.l1 <= tip-depth && (!h.reported || e.l1 > h.reportedMax) {
+			return true
+		}
+	}
+	return false
+}
+
+// stalledLocked: the node answers no finalised-height query at all (the real client then sits in its retry loop).
+func (h *harness) stalledLocked() bool {
+	if len(h.finPattern) == 0 {
+		return false
+	}
+	for _, k := range h.finPattern {
+		if k == kOK {
+			return false
+		}
+	}
+	return true
 }
 
 // reorgLocked orphans the last d blocks and mines len(spec) replacement blocks. The provider owes the client a
@@ -349,7 +415,7 @@ func (h *harness) bufferedHeightsLocked(lo, hi uint64) int {
 // catchUpCleanLocked: the start-up scan of the current instance met no provider failure and no chain change.
 func (h *harness) catchUpCleanLocked() bool {
 	p := h.pl
-	return !p.latestFail && p.finFailN == 0 && (p.filterFailAt < 0 || h.filterCalls <= p.filterFailAt) &&
+	return !p.latestFail && p.finFailN == 0 && !h.scanDisturbed && (p.filterFailAt < 0 || h.filterCalls <= p.filterFailAt) &&
 		(p.midAt < 0 || h.filterCalls <= p.midAt)
 }
 
@@ -429,6 +495,40 @@ var (
 	errStale    = errors.New("c17: call from a stopped client instance")
 )
 
+// What the node (as seen through the provider) does with one call. The kinds are the ones the real adapter
+// (GethL1StateProvider) can produce: a transport / JSON-RPC error, the eth.ErrNotFound sentinel (the node answered
+// null: "no such block", e.g. no finalised block known yet after a restart of the L1 node) and an expired call context.
+const (
+	kOK = iota
+	kGeneric
+	kNotFound
+	kDeadline
+)
+
+var kindName = [...]string{"ok", "error", "not-found", "deadline"}
+
+func kindsString(ks []int) string {
+	var sb strings.Builder
+	sb.WriteString("[")
+	for i, k := range ks {
+		if i > 0 {
+			sb.WriteString(" ")
+		}
+		sb.WriteString(kindName[k])
+	}
+	return sb.String() + "]"
+}
+
+func kindErr(kind int, what string) error {
+	switch kind {
+	case kNotFound:
+		return fmt.Errorf("c17: %s not found: %w", what, eth.ErrNotFound)
+	case kDeadline:
+		return fmt.Errorf("c17: %s: %w", what, context.DeadlineExceeded)
+	}
+	return errInjected
+}
+
 func (p *provider) ChainID(context.Context) (*big.Int, error) {
 	h := p.h
 	h.mu.Lock()
@@ -439,7 +539,7 @@ func (p *provider) ChainID(context.Context) (*big.Int, error) {
 	if h.pl.chainIDFailN > 0 {
 		h.pl.chainIDFailN--
 		h.injected++
-		return nil, errInjected
+		return nil, kindErr(h.pl.chainIDKind, "chain id")
 	}
 	return new(big.Int).Set(networks.Sepolia.L1ChainID), nil
 }
@@ -452,10 +552,36 @@ func (p *provider) FinalisedHeight(context.Context) (uint64, error) {
 	if p.gen != h.gen {
 		return 0, errStale
 	}
-	if h.finFailN > 0 {
+	idx := h.finCalls
+	h.finCalls++
+	kind := kOK
+	switch {
+	case h.finFailN > 0:
 		h.finFailN--
+		kind = h.finFailKind
+	case len(h.finPattern) > 0:
+		kind = h.finPattern[h.finPos%len(h.finPattern)]
+		h.finPos++
+		if kind != kOK {
+			h.outagePolls++
+			if h.outagePolls >= 20 {
+				h.flagLocked("fin-pattern>=20-failed-polls")
+			}
+		}
+	}
+	if kind != kOK {
 		h.injected++
-		return 0, errInjected
+		if idx == 0 {
+			h.scanDisturbed = true
+		}
+		h.flagLocked("fin-" + kindName[kind])
+		if h.deepUnfinalisedLocked(64) {
+			h.flagLocked("fin-" + kindName[kind] + "-with-unfinalised-event-64+-below-tip")
+		}
+		return 0, kindErr(kind, "finalised block")
+	}
+	if h.deepUnfinalisedLocked(64) {
+		h.flagLocked("unfinalised-event-64+-below-tip")
 	}
 	h.reported = true
 	if h.fin > h.reportedMax {
@@ -473,9 +599,22 @@ func (p *provider) LatestHeight(context.Context) (uint64, error) {
 	if p.gen != h.gen {
 		return 0, errStale
 	}
-	if h.pl.latestFail {
+	idx := h.latestCalls
+	h.latestCalls++
+	kind := kOK
+	if idx == 0 {
+		if h.pl.latestFail {
+			kind = h.pl.latestKind
+		}
+	} else if n := len(h.pl.latestLater); n > 0 {
+		kind = h.pl.latestLater[(idx-1)%n]
+	}
+	if kind != kOK {
 		h.injected++
-		return 0, errInjected
+		if idx == 0 {
+			h.scanDisturbed = true
+		}
+		return 0, kindErr(kind, "latest block")
 	}
 	h.latestGiven = uint64(len(h.blocks) - 1)
 	return h.latestGiven, nil
@@ -517,7 +656,14 @@ func (p *provider) filterEvents(from, to uint64, match bool) ([]*event, error) {
 			if d > 0 {
 				spec := h.pl.midSpec
 				for len(spec) < d {
-					spec = append(spec, 1)
+					if d > 4 { // deep: the replacement chain is mostly empty blocks, like the chain itself
+						spec = append(spec, 0)
+					} else {
+						spec = append(spec, 1)
+					}
+				}
+				if d > 4 {
+					h.flagLocked("deep-reorg")
 				}
 				h.reorgLocked(d, spec, h.pl.midOrder, false)
 				h.flagLocked("midscan-reorg")
@@ -535,7 +681,7 @@ func (p *provider) filterEvents(from, to uint64, match bool) ([]*event, error) {
 			h.flagLocked("catchup-partial")
 		}
 		h.flagLocked("catchup-filter-fail")
-		return nil, errInjected
+		return nil, kindErr(h.pl.filterKind, "logs")
 	}
 	// the scan is documented to walk back from LatestHeight in contiguous chunks of at most the configured size
 	wantTo := h.latestGiven
@@ -763,6 +909,13 @@ func (h *harness) syncCheck(where string) {
 	if hold || h.cur == nil {
 		return
 	}
+	h.mu.Lock()
+	stalled := h.stalledLocked()
+	h.mu.Unlock()
+	if stalled {
+		h.stallSync(where)
+		return
+	}
 	h.quiesceStream()
 	h.waitFor("subscription channel drained", func() bool { return len(ch) == 0 })
 	h.mu.Lock()
@@ -773,6 +926,7 @@ func (h *harness) syncCheck(where string) {
 	h.mu.Lock()
 	exp := h.expectedLocked()
 	last, fin := h.lastReported, h.fin
+	h.stallSent = 0
 	h.unsyncedRemovalMin = math.MaxUint64
 	for _, it := range h.pending {
 		if it.removed && it.ev.l1 < h.unsyncedRemovalMin {
@@ -785,6 +939,38 @@ func (h *harness) syncCheck(where string) {
 		stats.HarnessError("c17: at quiescence the last reported finalised height is %d, model says %d", last, fin)
 	}
 	h.compare(where, got, set, exp)
+}
+
+// stallSync: the node answers no finalised-height query. Nothing is reported as finalised meanwhile, so there is no
+// quiescent value to compare with; the harness lets the client poll k more times (a count) and checks what every
+// observer checks all the time: whatever head is visible is a delivered, unremoved event at or below the largest
+// finalised height REPORTED so far.
+func (h *harness) stallSync(where string) {
+	k := rapid.SampledFrom([]int{2, 2, 3, 8, 24}).Draw(h.rt, "outagePolls")
+	h.logf("(outage: %d further finalised-height polls)", k)
+	h.mu.Lock()
+	c0 := h.finCalls
+	h.mu.Unlock()
+	h.waitFor("further FinalisedHeight calls during the outage ("+where+")", func() bool { return h.finCalls >= c0+k })
+	h.readHead(h.bc, srcStep)
+	h.raise()
+}
+
+func (h *harness) runDeferred() {
+	d := h.deferred
+	h.deferred = nil
+	for _, f := range d {
+		f()
+	}
+}
+
+// endOutage: the node answers the finalised-height query again; waits postponed during the outage are made up.
+func (h *harness) endOutage() {
+	h.mu.Lock()
+	h.finPattern, h.finPos, h.outagePolls = nil, 0, 0
+	h.pendingResub = false
+	h.mu.Unlock()
+	h.runDeferred()
 }
 
 func (h *harness) compare(where string, got *event, set bool, exp *event) {
@@ -805,6 +991,15 @@ func (h *harness) deliver(k int) {
 		if !h.subUp || len(h.pending) == 0 {
 			h.mu.Unlock()
 			return
+		}
+		if h.stalledLocked() {
+			// the real client does not read its channel (128 slots) while it retries the finalised-height query
+			if h.stallSent >= 96 {
+				h.mu.Unlock()
+				return
+			}
+			h.stallSent++
+			h.flagLocked("delivery-during-outage")
 		}
 		it := h.pending[0]
 		h.pending = h.pending[1:]
@@ -868,27 +1063,54 @@ var (
 	// replacement blocks of a reorg: more often empty, so that what the client kept of the old fork is not simply overwritten
 	genReorgEvents = rapid.SampledFrom([]int{0, 0, 0, 0, 1, 1, 2, 3})
 	genChunk       = rapid.SampledFrom([]uint64{1, 1, 2, 2, 3, 5, 8, 50})
+	// chunk sizes for a tall chain (1000 is the client's default); the scan stays within a few dozen queries
+	genBigChunk = rapid.SampledFrom([]uint64{64, 100, 256, 1000, 1000, 5000})
+	// runs of Ethereum blocks without a state update: around one and two epochs (32 / 64 blocks) and far beyond
+	genGap = rapid.SampledFrom([]int{5, 31, 32, 33, 62, 63, 64, 65, 66, 96, 127, 128, 129, 200, 500, 1000})
+	// distance of the finalised block below the tip
+	genFinLag   = rapid.SampledFrom([]uint64{0, 1, 32, 63, 64, 65, 96, 128, 300})
+	genFailKind = rapid.SampledFrom([]int{kGeneric, kGeneric, kNotFound, kNotFound, kNotFound, kDeadline})
+	genAnyKind  = rapid.SampledFrom([]int{kOK, kOK, kOK, kGeneric, kNotFound, kNotFound, kDeadline})
 )
+
+const maxScanQueries = 40
 
 func (h *harness) drawPlan(label string) plan {
 	rt := h.rt
 	p := plan{filterFailAt: -1, midAt: -1}
 	p.chunk = genChunk.Draw(rt, label+"chunk")
+	h.mu.Lock()
+	tip := uint64(len(h.blocks) - 1)
+	h.mu.Unlock()
+	if tip/p.chunk > maxScanQueries {
+		p.chunk = genBigChunk.Draw(rt, label+"bigChunk")
+		if tip/p.chunk > maxScanQueries {
+			p.chunk = tip/maxScanQueries + 1
+		}
+	}
 	if rapid.IntRange(0, 9).Draw(rt, label+"chainIDFail") == 0 {
 		p.chainIDFailN = 1
+		p.chainIDKind = genFailKind.Draw(rt, label+"chainIDKind")
 	}
 	p.latestFail = rapid.IntRange(0, 11).Draw(rt, label+"latestFail") == 0
+	if p.latestFail {
+		p.latestKind = genFailKind.Draw(rt, label+"latestKind")
+	}
+	// the unchanged client asks for the latest height once per instance; whoever asks again is answered by this
+	p.latestLater = rapid.SliceOfN(genAnyKind, 1, 4).Draw(rt, label+"latestLater")
 	if rapid.IntRange(0, 9).Draw(rt, label+"finFail") == 0 {
 		p.finFailN = rapid.IntRange(1, 2).Draw(rt, label+"finFailN")
+		p.finKind = genFailKind.Draw(rt, label+"finKind")
 	}
 	if rapid.IntRange(0, 3).Draw(rt, label+"filterFail") == 0 {
 		p.filterFailAt = rapid.IntRange(0, 3).Draw(rt, label+"filterFailAt")
+		p.filterKind = genFailKind.Draw(rt, label+"filterKind")
 	}
 	p.watchFailN = rapid.SampledFrom([]int{0, 0, 0, 1, 2}).Draw(rt, label+"watchFail")
 	if rapid.IntRange(0, 5).Draw(rt, label+"mid") == 0 {
 		p.midAt = rapid.IntRange(0, 2).Draw(rt, label+"midAt")
 		p.midReorg = rapid.Bool().Draw(rt, label+"midReorg")
-		p.midDepth = rapid.IntRange(1, 4).Draw(rt, label+"midDepth")
+		p.midDepth = rapid.SampledFrom([]int{1, 2, 3, 4, 1, 2, 3, 4, 70, 1000}).Draw(rt, label+"midDepth")
 		p.midSpec = rapid.SliceOfN(genReorgEvents, 1, 4).Draw(rt, label+"midSpec")
 		p.midOrder = rapid.IntRange(0, 1).Draw(rt, label+"midOrder")
 	}
@@ -922,13 +1144,18 @@ func (h *harness) newInstance(p plan, newBC, run bool) *l1.Client {
 	h.unsyncedRemovalMin = math.MaxUint64
 	h.pl = p
 	h.subUp, h.hold, h.curSub, h.updCh = false, false, nil, nil
-	h.watchFailN, h.finFailN = p.watchFailN, p.finFailN
+	h.watchFailN, h.finFailN, h.finFailKind = p.watchFailN, p.finFailN, p.finKind
+	h.finCalls, h.latestCalls, h.scanDisturbed, h.stallSent, h.pendingResub = 0, 0, false, 0, false
+	if h.stalledLocked() {
+		h.flagLocked("client-start-during-outage")
+	}
 	h.filterCalls, h.injected, h.latestGiven, h.prevFrom = 0, 0, 0, 0
 	h.finOK, h.watchOK, h.watchFail = 0, 0, 0
 	gen := h.gen
 	h.markerSeen, h.tapCur = 0, nil
 	h.mu.Unlock()
 	h.markerSent = 0
+	h.deferred = nil // (they concerned the instance that has just been stopped)
 	h.startObservers()
 	var prov l1.L1StateProvider = &provider{h: h, gen: gen}
 	if h.viaGeth {
@@ -993,16 +1220,25 @@ func (h *harness) step() {
 	finCap := h.finCapLocked()
 	hold := h.hold
 	npend := len(h.pending)
+	stalled, patterned, pendingResub := h.stalledLocked(), len(h.finPattern) > 0, h.pendingResub
 	h.mu.Unlock()
 
-	kinds := []string{"mine", "mine", "mine", "mine", "mine", "mine", "sync", "restart"}
+	kinds := []string{"mine", "mine", "mine", "mine", "mine", "mine", "sync", "restart", "gap"}
 	if !hold {
-		kinds = append(kinds, "suberr", "finfail")
-		if npend > 0 {
-			kinds = append(kinds, "deliver", "deliver", "deliver")
+		kinds = append(kinds, "finfail")
+		if !pendingResub {
+			kinds = append(kinds, "suberr")
+			if npend > 0 {
+				kinds = append(kinds, "deliver", "deliver", "deliver")
+			}
 		}
-	} else {
+	} else if !pendingResub {
 		kinds = append(kinds, "subup", "subup", "subup")
+	}
+	if patterned {
+		kinds = append(kinds, "recover", "recover", "recover")
+	} else {
+		kinds = append(kinds, "outage")
 	}
 	if finCap > fin {
 		kinds = append(kinds, "finalise", "finalise", "finalise", "finalise")
@@ -1030,12 +1266,51 @@ func (h *harness) step() {
 		if auto {
 			h.deliver(math.MaxInt32)
 		}
+	case "gap":
+		k := genGap.Draw(rt, "gap")
+		h.mu.Lock()
+		h.mineGapLocked(k)
+		height := len(h.blocks) - 1
+		h.mu.Unlock()
+		h.logf("mine %d L1 blocks without events (tip %d)", k, height)
+	case "outage":
+		// the node stops answering the finalised-height query (per call: transport error / "no such block" / expired
+		// context), for every poll until the script says otherwise, or flakily (a drawn cyclic pattern with answers)
+		var pat []int
+		switch typ := rapid.SampledFrom([]string{"not-found", "not-found", "not-found", "error", "deadline", "mixed", "flaky", "flaky"}).Draw(rt, "outageType"); typ {
+		case "not-found":
+			pat = []int{kNotFound}
+		case "error":
+			pat = []int{kGeneric}
+		case "deadline":
+			pat = []int{kDeadline}
+		case "mixed":
+			pat = rapid.SliceOfN(genFailKind, 2, 5).Draw(rt, "pattern")
+		default:
+			pat = rapid.SliceOfN(genAnyKind, 2, 6).Draw(rt, "pattern")
+			pat[rapid.IntRange(0, len(pat)-1).Draw(rt, "answered")] = kOK
+		}
+		h.mu.Lock()
+		h.finPattern, h.finPos, h.outagePolls = pat, 0, 0
+		if h.stalledLocked() {
+			h.flagLocked("outage")
+			if h.deepUnfinalisedLocked(64) {
+				h.flagLocked("outage-begins-with-unfinalised-event-64+-below-tip")
+			}
+		} else {
+			h.flagLocked("flaky-finalised-query")
+		}
+		h.mu.Unlock()
+		h.logf("finalised-height queries are from now on answered %s, cyclically", kindsString(pat))
+	case "recover":
+		h.logf("finalised-height queries are answered again")
+		h.endOutage()
 	case "deliver":
 		k := rapid.IntRange(1, npend).Draw(rt, "k")
 		h.logf("deliver next %d queued logs", k)
 		h.deliver(k)
 	case "finalise":
-		mode := rapid.SampledFrom([]string{"+1", "+1", "event", "event", "max"}).Draw(rt, "finMode")
+		mode := rapid.SampledFrom([]string{"+1", "+1", "event", "event", "max", "lag", "lag", "any"}).Draw(rt, "finMode")
 		h.mu.Lock()
 		var hs []uint64
 		for n := fin + 1; n <= finCap; n++ {
@@ -1050,6 +1325,15 @@ func (h *harness) step() {
 			target = finCap
 		case mode == "event" && len(hs) > 0:
 			target = rapid.SampledFrom(hs).Draw(rt, "finTarget")
+		case mode == "lag": // a fixed distance below the tip (when that is ahead of the current finalised height)
+			if lag := genFinLag.Draw(rt, "finLag"); top >= lag && top-lag > fin {
+				target = top - lag
+				if target > finCap {
+					target = finCap
+				}
+			}
+		case mode == "any":
+			target = rapid.Uint64Range(fin+1, finCap).Draw(rt, "finTarget")
 		}
 		h.mu.Lock()
 		if h.bufferedHeightsLocked(fin, target) >= 2 {
@@ -1060,21 +1344,60 @@ func (h *harness) step() {
 		h.logf("finalised height %d -> %d", fin, target)
 	case "reorg":
 		maxd := int(top - fin)
-		if maxd > 4 {
-			maxd = 4
+		var d int
+		var spec []int
+		if maxd > 4 && rapid.IntRange(0, 2).Draw(rt, "deepReorg") == 0 {
+			// anything above the finalised block may be reorged: down to a block carrying events, or to any block
+			h.mu.Lock()
+			var hs []int
+			for n := int(fin) + 1; n <= int(top); n++ {
+				if len(h.blocks[n].evs) > 0 {
+					hs = append(hs, n)
+				}
+			}
+			h.mu.Unlock()
+			first := 0
+			if len(hs) > 0 && rapid.IntRange(0, 3).Draw(rt, "toEvent") != 0 {
+				first = rapid.SampledFrom(hs).Draw(rt, "firstOrphaned")
+			} else {
+				first = rapid.IntRange(int(fin)+1, int(top)).Draw(rt, "firstOrphaned")
+			}
+			d = int(top) - first + 1
+			// the replacement chain: as long (or one block longer), a few of its blocks carry events
+			spec = make([]int, d+rapid.IntRange(0, 1).Draw(rt, "longer"))
+			for i, k := 0, rapid.IntRange(0, 3).Draw(rt, "eventBlocks"); i < k; i++ {
+				spec[rapid.IntRange(0, len(spec)-1).Draw(rt, "at")] = genEvents.Draw(rt, "events")
+			}
+			h.mu.Lock()
+			if d > 4 {
+				h.flagLocked("deep-reorg")
+			}
+			if d >= 64 {
+				for _, e := range h.all {
+					if e.gen == h.gen && e.ever && !e.orphaned && int(e.l1) >= first && e.l1+64 <= top {
+						h.flagLocked("reorg-of-delivered-event-64+-below-tip")
+						break
+					}
+				}
+			}
+			h.mu.Unlock()
+		} else {
+			if maxd > 4 {
+				maxd = 4
+			}
+			d = maxd - rapid.SampledFrom([]int{0, 0, 0, 1, 1, 2, 3}).Draw(rt, "depthBelowMax")
+			if d < 1 {
+				d = 1
+			}
+			spec = rapid.SliceOfN(genReorgEvents, d, d+1).Draw(rt, "newBlocks")
 		}
-		d := maxd - rapid.SampledFrom([]int{0, 0, 0, 1, 1, 2, 3}).Draw(rt, "depthBelowMax")
-		if d < 1 {
-			d = 1
-		}
-		spec := rapid.SliceOfN(genReorgEvents, d, d+1).Draw(rt, "newBlocks")
 		order := rapid.IntRange(0, 1).Draw(rt, "removalOrder")
 		auto := rapid.Bool().Draw(rt, "deliverNow")
 		h.mu.Lock()
 		h.reorgLocked(d, spec, order, !h.hold || !h.missMode)
 		h.mu.Unlock()
-		h.logf("reorg depth %d (blocks %d..%d orphaned), new blocks carry %v events, removal order %s (deliverNow=%v)",
-			d, int(top)-d+1, top, spec, []string{"ascending", "descending"}[order], auto)
+		h.logf("reorg depth %d (blocks %d..%d orphaned), new blocks carry %s events, removal order %s (deliverNow=%v)",
+			d, int(top)-d+1, top, specString(spec), []string{"ascending", "descending"}[order], auto)
 		h.c.Label("reorg")
 		if auto {
 			h.deliver(math.MaxInt32)
@@ -1105,10 +1428,23 @@ func (h *harness) step() {
 				stats.HarnessError("c17: subscription error channel full")
 			}
 		}
-		if hold {
-			h.waitFor("a failed resubscription", func() bool { return h.watchFail > f0 })
+		wait := func() {
+			if hold {
+				h.waitFor("a failed resubscription", func() bool { return h.watchFail > f0 })
+			} else {
+				h.waitFor("resubscription", func() bool { return h.watchOK > w0 })
+			}
+		}
+		if stalled {
+			// the real client is busy retrying the finalised-height query: it learns of the broken subscription
+			// (and resubscribes) once that query is answered again
+			h.mu.Lock()
+			h.pendingResub = true
+			h.flagLocked("sub-error-during-outage")
+			h.mu.Unlock()
+			h.deferred = append(h.deferred, wait)
 		} else {
-			h.waitFor("resubscription", func() bool { return h.watchOK > w0 })
+			wait()
 		}
 	case "subup":
 		failN := rapid.IntRange(0, 1).Draw(rt, "resubFail")
@@ -1120,10 +1456,11 @@ func (h *harness) step() {
 		h.waitFor("resubscription", func() bool { return h.watchOK > w0 })
 	case "finfail":
 		n := rapid.IntRange(1, 3).Draw(rt, "n")
+		fk := genFailKind.Draw(rt, "kind")
 		h.mu.Lock()
-		h.finFailN = n
+		h.finFailN, h.finFailKind = n, fk
 		h.mu.Unlock()
-		h.logf("next %d FinalisedHeight calls fail", n)
+		h.logf("next %d FinalisedHeight calls fail (%s)", n, kindName[fk])
 		h.c.Label("fin-fail")
 	case "restart":
 		if rapid.Bool().Draw(rt, "syncBeforeRestart") {
@@ -1140,6 +1477,21 @@ func (h *harness) step() {
 		h.logf("sync")
 		h.syncCheck("after " + kind)
 	}
+}
+
+// specString renders the events-per-block list of a replacement chain (sparsely when it is long).
+func specString(spec []int) string {
+	if len(spec) <= 8 {
+		return fmt.Sprint(spec)
+	}
+	var sb strings.Builder
+	fmt.Fprintf(&sb, "[%d blocks;", len(spec))
+	for i, n := range spec {
+		if n > 0 {
+			fmt.Fprintf(&sb, " +%d:%d", i, n)
+		}
+	}
+	return sb.String() + "]"
 }
 
 func runScript(rt *rapid.T, c *stats.Case) { runScriptMode(rt, c, false) }
@@ -1167,10 +1519,14 @@ func runScriptMode(rt *rapid.T, c *stats.Case, viaGeth bool) {
 	// initial L1 chain: nothing of it has been delivered to anybody
 	h.l2base = rapid.SampledFrom([]uint64{0, 1, 100}).Draw(rt, "l2base")
 	nb := rapid.IntRange(1, 8).Draw(rt, "initialBlocks")
+	// height geometry: the blocks carrying the first state updates may sit far above genesis, and the chain tip
+	// may be far above them (on Ethereum the finalised block is normally >= 64 blocks below the tip)
+	prefix := rapid.SampledFrom([]int{0, 0, 0, 0, 0, 0, 2, 64, 300, 1500}).Draw(rt, "emptyPrefix")
+	h.mineGapLocked(prefix)
 	var spec []int
 	for i := 0; i < nb; i++ {
 		n := genEvents.Draw(rt, "events")
-		if i == 0 && n > 0 {
+		if prefix == 0 && i == 0 && n > 0 {
 			if rapid.IntRange(0, 3).Draw(rt, "block0") != 0 {
 				n = 0
 			} else {
@@ -1180,8 +1536,30 @@ func runScriptMode(rt *rapid.T, c *stats.Case, viaGeth bool) {
 		spec = append(spec, n)
 		h.mineLocked(n)
 	}
-	h.fin = uint64(rapid.IntRange(0, nb-1).Draw(rt, "initialFinalised"))
-	h.logf("initial chain: events per L1 block %v, finalised %d, first L2 number %d", spec, h.fin, h.l2base)
+	suffix := 0
+	if rapid.IntRange(0, 2).Draw(rt, "tallTip") == 0 {
+		suffix = genGap.Draw(rt, "emptySuffix")
+		h.mineGapLocked(suffix)
+	}
+	tip := prefix + nb + suffix - 1
+	switch rapid.SampledFrom([]string{"events", "events", "any", "lag"}).Draw(rt, "initialFinalisedMode") {
+	case "events":
+		h.fin = uint64(prefix + rapid.IntRange(0, nb-1).Draw(rt, "initialFinalised"))
+	case "any":
+		h.fin = uint64(rapid.IntRange(0, tip).Draw(rt, "initialFinalised"))
+	default:
+		if lag := int(genFinLag.Draw(rt, "initialFinLag")); lag <= tip {
+			h.fin = uint64(tip - lag)
+		}
+	}
+	h.logf("initial chain: %d empty L1 blocks, then events per L1 block %v, then %d empty blocks (tip %d), finalised %d, first L2 number %d",
+		prefix, spec, suffix, tip, h.fin, h.l2base)
+	// the node may be in an outage of its finalised-height query from the start (it has just been restarted)
+	if rapid.IntRange(0, 7).Draw(rt, "initialOutage") == 0 {
+		h.finPattern = []int{kNotFound}
+		h.flagLocked("outage")
+		h.logf("finalised-height queries are from now on answered %s, cyclically", kindsString(h.finPattern))
+	}
 
 	h.restart(true)
 	steps := rapid.IntRange(3, stats.Pick(24, 40)).Draw(rt, "nsteps")
@@ -1189,7 +1567,14 @@ func runScriptMode(rt *rapid.T, c *stats.Case, viaGeth bool) {
 		h.step()
 	}
 
-	// quiescence: node reachable, everything queued delivered, channel drained, two further polls
+	// quiescence: node answers everything, is reachable, everything queued delivered, channel drained, two further polls
+	h.mu.Lock()
+	patterned := len(h.finPattern) > 0
+	h.mu.Unlock()
+	if patterned {
+		h.logf("finalised-height queries are answered again")
+		h.endOutage()
+	}
 	h.mu.Lock()
 	hold := h.hold
 	h.hold, h.watchFailN = false, 0
@@ -1208,10 +1593,18 @@ func runScriptMode(rt *rapid.T, c *stats.Case, viaGeth bool) {
 		h.mu.Lock()
 		fin, cap := h.fin, h.finCapLocked()
 		if fin < cap {
-			if i < 6 {
+			h.fin = cap
+			switch {
+			case i < 6 && cap-fin <= 8:
 				h.fin = fin + 1
-			} else {
-				h.fin = cap
+			case i < 6:
+				// tall chain: to the next block carrying events, so that the buffered blocks are still promoted in turn
+				for n := fin + 1; n < cap; n++ {
+					if len(h.blocks[n].evs) > 0 {
+						h.fin = n
+						break
+					}
+				}
 			}
 		}
 		now := h.fin
@@ -1253,10 +1646,14 @@ func runScriptMode(rt *rapid.T, c *stats.Case, viaGeth bool) {
 }
 
 const rule = "rapid-drawn script against the real l1.Client + real Blockchain(memory DB): model L1 chain (blocks with 0-3 LogStateUpdate events, " +
-	"strictly increasing L2 numbers along the canonical chain), monotone finalised height, reorgs of the non-finalised suffix with Removed copies " +
-	"(ascending/descending) of every delivered log before the new logs, subscription errors, unreachable periods with missed logs, failing " +
-	"resubscriptions / FinalisedHeight / ChainID / LatestHeight / FilterStateUpdate, chain changes during the catch-up scan, chunk sizes 1..50, " +
-	"restarts via Run and via CatchUpL1Head; count-based synchronisation. Non-trivial = a Removed copy is delivered for a buffered event, or " +
+	"runs of 5..1000 blocks without events before / after / between them, so that the tip is up to thousands of blocks above the buffered events; " +
+	"strictly increasing L2 numbers along the canonical chain), monotone finalised height anywhere between 0 and the tip (+1, to an event, fixed lag " +
+	"0..300 below the tip, uniform), reorgs of the non-finalised suffix (1-4 blocks, or down to any block / event above the finalised height) with " +
+	"Removed copies (ascending/descending) of every delivered log before the new logs, subscription errors, unreachable periods with missed logs, failing " +
+	"resubscriptions / FinalisedHeight / ChainID / LatestHeight / FilterStateUpdate with a drawn failure kind (transport error, eth.ErrNotFound " +
+	"sentinel, context deadline), outages of the finalised-height query (every poll fails, not-found / error / deadline / mixed, until the script ends " +
+	"them; also from the start, across restarts, with subscription errors inside) and flaky cyclic answer patterns, chain changes during the catch-up " +
+	"scan, chunk sizes 1..50 (64..5000 on a tall chain), restarts via Run and via CatchUpL1Head; count-based synchronisation. Non-trivial = a Removed copy is delivered for a buffered event, or " +
 	"finality advances past >= 2 buffered L1 blocks at once, or a restart/resubscription happens with a non-empty buffer; distinct = distinct script"
 
 // TestRaceL1HeadScript runs the script under the race detector (the client, the feed, the database reads of
